@@ -457,6 +457,12 @@ func (w *world) main() {
 	ch := simrt.Choose
 	w.kind = ch("cfg.handler", 3)
 	w.level = []slog.Level{logger.LevelDebug, logger.LevelInfo, logger.LevelWarn, logger.LevelError, logger.LevelFatal}[ch("cfg.threshold", 5)]
+	if ch("cfg.threshold.odd", 6) == 5 {
+		// "all thresholds": also ones between two named levels, below the lowest
+		// and above the highest (a logger that writes nothing)
+		simrt.Probe("threshold_between_levels")
+		w.level = []slog.Level{logger.LevelInfo + 1, logger.LevelWarn - 1, logger.LevelError + 2, logger.LevelFatal + 4, logger.LevelDebug - 3, logger.LevelFatal + 1}[ch("cfg.threshold.odd.v", 6)]
+	}
 	w.color = ch("cfg.color", 2) == 1
 	if w.storm = ch("cfg.groupstorm", 6) == 5; w.storm {
 		simrt.Probe("group_storm")
